@@ -52,7 +52,12 @@ pub fn convert_grammar_functions_to_semantic_functions(
             };
             match (ident.as_str(), exprs.as_slice()) {
                 ("index", [grammar::Expr::IntLiteral(index_)]) => {
-                    index = Some(*index_ as usize);
+                    index = Some((*index_).try_into().with_context(|| {
+                        format!(
+                            "failed to convert `index` attribute into usize for vftable function `{}`",
+                            function.name
+                        )
+                    })?);
                 }
                 _ => continue,
             }
